@@ -601,34 +601,9 @@ func (v *verifier) checkData(res *imgResult, n *node.Node, k int, obs map[partKe
 		reuseCache[ref] = why
 		return why
 	}
-	// reused: a name of the row - or of another row of the same metric in the same shard, whose series share the
-	// metric's forward / inverted index blocks with it - now carries an id that durable index entries or data of a row in
-	// the flush protocol window still use for something else.
-	scopeCache := map[string]string{}
-	reused := func(ref *rowRef) string {
-		if len(hole) == 0 {
-			return ""
-		}
-		if why := ownReuse(ref); why != "" {
-			return why
-		}
-		scope := fmt.Sprintf("%d/%s", ref.row.Shard, ref.row.Metric)
-		if why, ok := scopeCache[scope]; ok {
-			return why
-		}
-		why := ""
-		for _, other := range v.rows {
-			if other.row.Shard != ref.row.Shard || other.row.Metric != ref.row.Metric || statusOf(other.entry) == stAbsent {
-				continue
-			}
-			if w := ownReuse(other); w != "" {
-				why = "in the index of the same metric: " + w
-				break
-			}
-		}
-		scopeCache[scope] = why
-		return why
-	}
+	// reused: a name of the row now carries an id that durable index entries or data of a row in the flush protocol
+	// window still use for another name
+	reused := ownReuse
 	// classify a row the recovered node does not return although it must
 	classifyLost := func(ref *rowRef) string {
 		e := ref.entry
